@@ -24,7 +24,8 @@ Proof. exact roundtrip. Qed.
 Print Assumptions C10_roundtrip.
 
 (* Every abstract operator tree (any combination and depth of the documented operators,
-   calls, field access, conditionals; literals without underscores; factorial orders >= 1),
+   calls, field access, conditionals, interpolated strings in the shape the parser builds;
+   literals without underscores; factorial orders >= 1),
    printed with parentheses exactly where the precedence table demands them, parses to itself. *)
 Theorem C10_precedence : forall e : expr, printable e = true -> parse (pr (min_paren e)) = Ok [StExpr e] [].
 Proof. exact precedence_roundtrip. Qed.
@@ -418,4 +419,17 @@ Example C10_ex_sound_full :
   /\ tp_plain [TKw KFn; TIdent [102]; TLessThan; TGreaterThan; TLParen; TRParen]%N = false
   /\ tp_plain [TKw KFn; TIdent [102]; TLessThan; TIdent [65]; TComma; TGreaterThan]%N = false
   /\ core [TIdent [102]; TLParen; TNewline; TRParen]%N = false.
+Proof. vm_compute. repeat split; reflexivity. Qed.
+
+(* an abstract interpolated string is rendered with canonical part lexemes and read back as itself *)
+Example C10_ex_precedence_interp :
+  let e := EBin Add (EInterp [PFixed [97]%N; PExpr (EBin Mul (EIdent [120]%N) (EScalar [50]%N)) (Some [58; 120]%N);
+                              PExpr (EInterp [PExpr EHole None; PFixed [123]%N]) None]) (EScalar [49]%N) in
+  printable e = true
+  /\ pr (min_paren e) = [TInterpStart [34; 97; 123]; TIdent [120]; TMultiply; TNumber [50]; TInterpSpec [58; 120];
+                          TInterpMiddle [125; 123]; TInterpStart [34; 123]; TQuestionMark; TInterpEnd [125; 123; 123; 34];
+                          TInterpEnd [125; 34]; TPlus; TNumber [49]]%N
+  /\ parse (pr (min_paren e)) = Ok [StExpr e] []
+  /\ printable (EInterp [PFixed []%N; PExpr EHole None]) = false
+  /\ printable (EInterp [PFixed [97]%N]) = false.
 Proof. vm_compute. repeat split; reflexivity. Qed.
